@@ -81,10 +81,9 @@ Lemma conn_stream_obs v sp sc producer h c a reads
   (forall q, reads = false -> body false q = ([], Live q false)) ->
   (reads = true -> body false [] = ([EBlocked], Over)) ->
   forall sp', norm v sc (PStream sp) = PStream sp' -> steps sp' = steps sp ->
-  (forall al q, body al q = body al q) ->
   fst (conn_stream v sp producer h c a reads cbody) = pipe_stream sp' h c a body.
 Proof.
-  intros -> -> Hb Herr Hzero Hdead sp' Hn Hsteps _.
+  intros -> -> Hb Herr Hzero Hdead sp' Hn Hsteps.
   unfold conn_stream, pipe_stream.
   destruct (eff_init v sp (is_producer sc) (has_header sc)) as [|e|] eqn:E.
   - (* init ok *)
